@@ -79,6 +79,9 @@ pub uninterp spec fn f64_min_spec(a: f64, b: f64) -> f64;
 pub uninterp spec fn f64_sqrt_spec(a: f64) -> f64;
 pub assume_specification[ f64::min ](a: f64, b: f64) -> (r: f64) ensures r == f64_min_spec(a, b);
 pub assume_specification[ f64::sqrt ](a: f64) -> (r: f64) ensures r == f64_sqrt_spec(a);
+// f64::max: an arbitrary but fixed function of its arguments (no fact about it is assumed)
+pub uninterp spec fn f64_max2_spec(a: f64, b: f64) -> f64;
+pub assume_specification[ f64::max ](a: f64, b: f64) -> (r: f64) ensures r == f64_max2_spec(a, b);
 pub uninterp spec fn f64_is_nan_spec(a: f64) -> bool;
 pub assume_specification[ f64::is_nan ](a: f64) -> (r: bool) ensures r == f64_is_nan_spec(a);
 pub uninterp spec fn f64_max_const() -> f64;
@@ -87,3 +90,8 @@ pub fn vx_f64_max() -> (r: f64) ensures r == f64_max_const() { f64::MAX }
 // debug-build semantics of an overflowing counter increment: the process panics, i.e. the call does not return
 #[verifier::external_body]
 pub fn vx_incr_i32_or_panic(i: i32) -> (r: i32) ensures i < i32::MAX, r == i + 1 { i.checked_add(1).unwrap() }
+
+// f64::is_finite: no meaning given (a run-time validation of the input; its failure is a documented panic)
+pub uninterp spec fn f64_is_finite_spec(x: f64) -> bool;
+#[verifier::external_body]
+pub fn vx_f64_is_finite(x: f64) -> (r: bool) ensures r == f64_is_finite_spec(x) { x.is_finite() }
